@@ -63,7 +63,13 @@ OPT_DEFAULTS = {"df": None, "df_seed": 0, "transpose": False, "vmin": None, "vma
 # generators
 def gen_objectives(rng, n):
     """n DISTINCT objectives (so that a wrong cell-to-colour assignment is visible)"""
-    mode = rng.choice(["lattice", "lattice", "wild", "int"])
+    mode = rng.choice(["lattice", "lattice", "wild", "int", "close"])
+    if mode == "close":
+        # distinct objectives that are equal up to np.isclose's default tolerances (tiny around 0, or huge with unit steps)
+        # (all of them float32 values, like the other modes: the archive may be a float32 one)
+        if rng.random() < 0.5:
+            return [2.0 ** -30 * k for k in rng.sample(range(1, 4 * n + 4), n)]
+        return [2.0 ** 30 + 128.0 * k for k in rng.sample(range(0, 4 * n + 4), n)]
     if mode == "lattice":
         base = rng.choice([-3.0, 0.0, 0.25, 10.0, -100.5])
         step = rng.choice([0.125, 0.5, 1.0, 3.0])
@@ -358,7 +364,9 @@ def build_archive(case):
     b = max(1, case.get("batch", 1000))
     for s in range(0, len(adds), b):
         chunk = adds[s:s + b]
-        arch.add(np.arange(s, s + len(chunk), dtype=float)[:, None], [x[1] for x in chunk], [x[0] for x in chunk])
+        sols = np.arange(s, s + len(chunk), dtype=float)[:, None]
+        sols[1::2] = np.nan      # solutions are not validated for finiteness and play no role in any plot: a frame row holding a NaN is still an elite
+        arch.add(sols, [x[1] for x in chunk], [x[0] for x in chunk])
     return arch
 
 
@@ -484,7 +492,9 @@ def raw_same(a, b):
     sb, db = b
     if set(sa) != set(sb):
         return False, True
-    arch_ok = all(sa[k].shape == sb[k].shape and sa[k].dtype == sb[k].dtype and np.array_equal(sa[k], sb[k]) for k in sa)
+    def same(x, y):      # NaN entries (solutions are not validated for finiteness) are equal to themselves here
+        return np.array_equal(x, y, equal_nan=True) if x.dtype.kind == "f" else np.array_equal(x, y)
+    arch_ok = all(sa[k].shape == sb[k].shape and sa[k].dtype == sb[k].dtype and same(sa[k], sb[k]) for k in sa)
     if da is None:
         return arch_ok, True
     frame_ok = (type(da) is type(db) and list(da.columns) == list(db.columns) and list(da.index) == list(db.index)
